@@ -1040,8 +1040,9 @@ class ManifestRecursiveLoader:
                                 out[fullpath][1], e, diff)
                         # otherwise, make sure we have all checksums
                         kept_mpath, kept = out[fullpath]
-                        if any(kept.checksums.get(k) != v
-                               for k, v in e.checksums.items()):
+                        merged = any(kept.checksums.get(k) != v
+                                     for k, v in e.checksums.items())
+                        if merged:
                             kept.checksums.update(e.checksums)
                             # NB: the preserved entry was modified, its
                             # Manifest needs to be written too
@@ -1060,7 +1061,12 @@ class ManifestRecursiveLoader:
                             stale_to_remove.append(e)
                             continue
                         # and drop the duplicate
-                        entries_to_remove.append(e)
+                        if merged:
+                            # NB: likewise, the kept entry may have
+                            # become equal to the duplicate only now
+                            stale_to_remove.append(e)
+                        else:
+                            entries_to_remove.append(e)
                     else:
                         out[fullpath] = (mpath, e)
 
